@@ -89,6 +89,41 @@ F7Case(i) == LET j == i - 1
                      F7Invs[inv + 1], "")
 NF7 == NB7 * NB7 * Len(F7FBodies) * Len(F7Invs)
 
+(* ---- F8: parameter names and body identifiers that are proper prefixes / extensions of one another
+   (find_arg must compare whole spellings): every body of <= 3 items over {x xy xyz #x #xy ## 1} for the
+   parameter lists (xy,x) (x,xy) (xyz,x) (x,xyz) *)
+F8Items == <<"x", "xy", "xyz", "#x", "#xy", "##", "1">>
+NI8 == Len(F8Items)
+F8Body(k) ==
+  IF k = 0 THEN ""
+  ELSE IF k <= NI8 THEN F8Items[k]
+  ELSE IF k <= NI8 + NI8 * NI8
+       THEN LET j == k - NI8 - 1 IN JoinSp(<<F8Items[(j \div NI8) + 1], F8Items[(j % NI8) + 1]>>)
+  ELSE LET j == k - NI8 - NI8 * NI8 - 1
+       IN JoinSp(<<F8Items[(j \div (NI8 * NI8)) + 1], F8Items[((j \div NI8) % NI8) + 1], F8Items[(j % NI8) + 1]>>)
+NB8 == 1 + NI8 + NI8 * NI8 + NI8 * NI8 * NI8
+F8Params == << <<"xy", "x">>, <<"x", "xy">>, <<"xyz", "x">>, <<"x", "xyz">> >>
+F8Invs == <<"f(1,2)", "f(a b,)">>
+F8Case(i) == LET j == i - 1
+                 inv == j % Len(F8Invs)
+                 ps == (j \div Len(F8Invs)) % Len(F8Params)
+                 body == j \div (Len(F8Invs) * Len(F8Params))
+             IN Case("F8", i, <<Fun("f", F8Params[ps + 1], F8Body(body))>>, F8Invs[inv + 1], "")
+NF8 == NB8 * Len(F8Params) * Len(F8Invs)
+
+(* ---- F9: ## with an empty operand on one side and, on the other, an argument that is itself an
+   invocation of the same macro (directly, or through g): operands of ## are used as written (6.10.3.1),
+   so the inner name is found painted at the rescan; pre-expanding the argument gives another result *)
+F9Bodies == <<"x ## y", "y ## x", "x ## y x", "[x ## y]", "x ## y ## x", "x y ## x", "x ## y y", "1 x ## y">>
+F9Vals == <<"", "a", "f(a,b)", "g(a,b)", "f(,f(a,b))", "g(,a)", "f(f(a,b),)">>
+F9Case(i) == LET j == i - 1
+                 y == j % Len(F9Vals)
+                 x == (j \div Len(F9Vals)) % Len(F9Vals)
+                 b == j \div (Len(F9Vals) * Len(F9Vals))
+             IN Case("F9", i, <<Fun("f", <<"x", "y">>, F9Bodies[b + 1]), Fun("g", <<"x", "y">>, "f(x,y)")>>,
+                     "f(" \o F9Vals[x + 1] \o "," \o F9Vals[y + 1] \o ")", "")
+NF9 == Len(F9Bodies) * Len(F9Vals) * Len(F9Vals)
+
 (* ---- F3: arguments that are themselves invocations (complete, or completed late), to depth 2 *)
 F3Atoms == <<"1", "f", "E", "g", "LP 1">>
 NA3 == Len(F3Atoms)
@@ -114,13 +149,13 @@ NF3 == Len(F3Defs) * N3I
 
 (* ---- F4: # and ## operand matrices *)
 F4Ops  == <<"x", "y", "a", "1", "+", "\"s\"", "-", "=", "<", ".", "L">>
-F4Vals == <<"", "a", "1", "+", "\"s\"", "-", "a b", "1 +">>
+F4Vals == <<"", "a", "1", "+", "\"s\"", "-", "a b", "1 +", "f(a,1)", "g(a,1)">>
 F4aN == Len(F4Ops) * Len(F4Ops) * Len(F4Vals) * Len(F4Vals)
 F4aCase(i, j) == LET y == j % Len(F4Vals)
                      x == (j \div Len(F4Vals)) % Len(F4Vals)
                      r == (j \div (Len(F4Vals) * Len(F4Vals))) % Len(F4Ops)
                      l == j \div (Len(F4Vals) * Len(F4Vals) * Len(F4Ops))
-                 IN Case("F4", i, <<Fun("f", <<"x", "y">>, F4Ops[l + 1] \o " ## " \o F4Ops[r + 1])>>,
+                 IN Case("F4", i, <<Fun("f", <<"x", "y">>, F4Ops[l + 1] \o " ## " \o F4Ops[r + 1]), Fun("g", <<"x", "y">>, "f(x,y)")>>,
                          "f(" \o F4Vals[x + 1] \o "," \o F4Vals[y + 1] \o ")", "")
 F4bBodies == <<"x ## y ## z", "p x ## y ## z", "x ## y ## z q", "x y ## z", "x ## y z">>
 F4bVals == <<"", "1", "a">>
@@ -202,7 +237,10 @@ NF6 == Len(F6Invs)
 
 (* ---- P: every ordered pair of the C19 alphabet in every adjacency context *)
 NS == Len(Sigma)
-PCtx == 7
+PCtx == 9
+(* a newline between two tokens of one argument; a `#` first on a line inside an invocation would be a
+   directive there (6.10.3p11: undefined), so that one is written after a blank instead *)
+NL(b) == IF b = "#" THEN " " ELSE "\n"
 PCase(i) ==
   LET j == i - 1
       c == j % PCtx
@@ -215,22 +253,25 @@ PCase(i) ==
        [] c = 3 -> Case("P", i, <<Obj("E", "")>>, Adj(a, "E") \o " " \o b, "")              \* a E b, E empty
        [] c = 4 -> Case("P", i, <<Obj("E", "")>>, a \o " " \o Adj("E", b), "")
        [] c = 5 -> Case("P", i, <<ID>>, "ID(" \o a \o ")ID(" \o b \o ")", "")               \* end of one expansion / start of the next
-       [] OTHER -> Case("P", i, <<ID>>, "ID(" \o a \o ")" \o b, "")
+       [] c = 6 -> Case("P", i, <<ID>>, "ID(" \o a \o ")" \o b, "")
+       [] c = 7 -> Case("P", i, <<ID>>, "ID(" \o a \o NL(b) \o b \o ")", "")              \* a, b consecutive tokens of one argument, newline between
+       [] OTHER -> Case("P", i, <<ID, Fun("W", <<"y">>, "[ID(y)]")>>, "W(" \o a \o NL(b) \o b \o ")", "")   \* ... passed on through another macro's replacement
 NP == NS * NS * PCtx
 
 NT == Len(Tri)
 PTCase(i) ==
   LET j == i - 1
-      k == j % 2
-      c == Tri[((j \div 2) % NT) + 1]
-      b == Tri[((j \div (2 * NT)) % NT) + 1]
-      a == Tri[(j \div (2 * NT * NT)) + 1]
-  IN IF k = 0 THEN Case("PT", i, <<Fun("ID", <<"x">>, "x")>>, "ID(" \o a \o ")ID(" \o b \o ")ID(" \o c \o ")", "")
+      k == j % 3
+      c == Tri[((j \div 3) % NT) + 1]
+      b == Tri[((j \div (3 * NT)) % NT) + 1]
+      a == Tri[(j \div (3 * NT * NT)) + 1]
+  IN IF k = 2 THEN Case("PT", i, <<Fun("ID", <<"x">>, "x")>>, "ID(" \o a \o NL(b) \o b \o NL(c) \o c \o ")", "")
+     ELSE IF k = 0 THEN Case("PT", i, <<Fun("ID", <<"x">>, "x")>>, "ID(" \o a \o ")ID(" \o b \o ")ID(" \o c \o ")", "")
      ELSE Case("PT", i, <<Obj("E", "")>>, Adj(a, "E") \o " " \o Adj(b, "E") \o " " \o c, "")
-NPT == NT * NT * NT * 2
+NPT == NT * NT * NT * 3
 
 NCasesOf(f) == CASE f = "F1" -> NF1 [] f = "F2" -> NF2 [] f = "F3" -> NF3 [] f = "F4" -> NF4
-                 [] f = "F5" -> NF5 [] f = "F6" -> NF6 [] f = "F7" -> NF7 [] f = "P" -> NP [] f = "PT" -> NPT
+                 [] f = "F5" -> NF5 [] f = "F6" -> NF6 [] f = "F7" -> NF7 [] f = "F8" -> NF8 [] f = "F9" -> NF9 [] f = "P" -> NP [] f = "PT" -> NPT
 CaseAt(f, i) == CASE f = "F1" -> F1Case(i) [] f = "F2" -> F2Case(i) [] f = "F3" -> F3Case(i) [] f = "F4" -> F4Case(i)
-                  [] f = "F5" -> F5Case(i) [] f = "F6" -> F6Case(i) [] f = "F7" -> F7Case(i) [] f = "P" -> PCase(i) [] f = "PT" -> PTCase(i)
+                  [] f = "F5" -> F5Case(i) [] f = "F6" -> F6Case(i) [] f = "F7" -> F7Case(i) [] f = "F8" -> F8Case(i) [] f = "F9" -> F9Case(i) [] f = "P" -> PCase(i) [] f = "PT" -> PTCase(i)
 =============================================================================
